@@ -100,8 +100,28 @@ fn main() {
             runner::child_main(&args[3], stack_kb, f);
         }
         "replay" => {
-            let text = std::fs::read_to_string(&args[3]).expect("replay file");
-            let doc: serde_json::Value = serde_json::from_str(&text).expect("replay json");
+            // a replay file is either the JSON written by the engine or an input saved by libFuzzer
+            let raw = std::fs::read(&args[3]).expect("replay file");
+            let doc: serde_json::Value = match std::str::from_utf8(&raw).ok().and_then(|t| serde_json::from_str::<serde_json::Value>(t).ok()) {
+                Some(d) if d.is_array() || d.get("tape").is_some() => d,
+                _ => {
+                    let Some(target) = tx3v::fuzzing::target_of(&args[2]) else {
+                        eprintln!("{} is not a replay file of the engine and {} has no libFuzzer target", args[3], args[2]);
+                        std::process::exit(2);
+                    };
+                    match tx3v::fuzzing::run(&target, &raw, true) {
+                        Ok(()) => {
+                            println!("replay {} ({}): input passes", args[3], target);
+                            return;
+                        }
+                        Err(e) => {
+                            println!("  detail: {}", util::trunc(&e, 1200));
+                            println!("VIOLATION property={} replay={}", args[2], args[3]);
+                            std::process::exit(1);
+                        }
+                    }
+                }
+            };
             let (tape, phase) = if doc.is_array() {
                 (doc.clone(), "core".to_string())
             } else {
